@@ -29,6 +29,7 @@ import (
 
 	"storj.io/drpc"
 	"storj.io/drpc/drpcconn"
+	"storj.io/drpc/drpcerr"
 	"storj.io/drpc/drpcmanager"
 	"storj.io/drpc/drpcmetadata"
 	"storj.io/drpc/drpcserver"
@@ -292,6 +293,16 @@ func oldToNew(id string, seed uint64) runner.Result {
 }
 
 // (c) live interop
+type codedErr struct {
+	code uint64
+	text string
+}
+
+func (e *codedErr) Error() string { return e.text }
+func (e *codedErr) Code() uint64  { return e.code }
+
+var hostileTexts = []string{"plain", "", "100% done", "%s", "%d%%", "%!s(MISSING)", "a\x00b", "%v %v %v", "tab\tnew\nline", "\xff\xfe", "%"}
+
 func interop(id string, seed uint64, oldClient bool) runner.Result {
 	r := &payload.SplitMix{S: seed}
 	pair := simnet.New(simnet.Opts{Cap: payload.Pick(r, []int{-1, 0, 4096}), ChunkA: &simnet.ChunkRand{K: 1 + r.Intn(300), State: seed}, ChunkB: &simnet.ChunkRand{K: 1 + r.Intn(300), State: seed + 1}})
@@ -300,6 +311,16 @@ func interop(id string, seed uint64, oldClient bool) runner.Result {
 	sizes := make([]int, 8)
 	for i := range sizes {
 		sizes[i] = payload.Pick(r, []int{0, 1, 100, 1023, 1024, 1025, 5000, 70000})
+	}
+	// the options of the new endpoint are not part of the wire format: none of them may change what
+	// the old peer can say to it (the stream's MaximumBufferSize only bounds the buffers it keeps)
+	newOpts := drpcmanager.Options{
+		SoftCancel:       r.Intn(2) == 0,
+		WriterBufferSize: payload.Pick(r, []int{0, 100, 4096}),
+		Stream: drpcstream.Options{
+			SplitSize:         payload.Pick(r, []int{0, 1000, 64000}),
+			MaximumBufferSize: payload.Pick(r, []int{0, 1024, 8192}),
+		},
 	}
 	ctx, cancel := context.WithCancel(context.Background())
 	defer cancel()
@@ -311,6 +332,12 @@ func interop(id string, seed uint64, oldClient bool) runner.Result {
 		send([]byte) error
 		recv() ([]byte, error)
 	}
+	// a third of the unary calls end with an error of the handler: code and text travel in an error
+	// packet whose payload both generations must read back as the very same code and text
+	var fail *codedErr
+	if shape == 0 && r.Intn(3) == 0 {
+		fail = &codedErr{code: payload.Pick(r, []uint64{0, 1, 7, 1 << 40, 1<<64 - 1}), text: payload.Pick(r, hostileTexts)}
+	}
 	handle := func(st stream) error {
 		switch shape {
 		case 0: // unary
@@ -321,6 +348,9 @@ func interop(id string, seed uint64, oldClient bool) runner.Result {
 			mu.Lock()
 			srvGot = append(srvGot, m)
 			mu.Unlock()
+			if fail != nil {
+				return fail
+			}
 			return st.send(payload.Make(7, 1, 0, 0, sizes[0]))
 		case 1: // client stream
 			for {
@@ -364,7 +394,7 @@ func interop(id string, seed uint64, oldClient bool) runner.Result {
 	}
 	var serveOp *rig.Op
 	if oldClient {
-		srv := drpcserver.New(rig.HandlerFunc(func(s drpc.Stream, rpc string) error { return handle(newAdapter{s}) }))
+		srv := drpcserver.NewWithOptions(rig.HandlerFunc(func(s drpc.Stream, rpc string) error { return handle(newAdapter{s}) }), drpcserver.Options{Manager: newOpts})
 		serveOp = rig.Go("serve", func() (interface{}, error) { return nil, srv.ServeOne(ctx, pair.B) })
 	} else {
 		srv := oldserver.New(oldHandler(func(s olddrpc.Stream, rpc string) error { return handle(oldAdapter{s}) }))
@@ -391,7 +421,7 @@ func interop(id string, seed uint64, oldClient bool) runner.Result {
 			}
 			st, closeSend, closeFn = oldAdapter{s}, s.CloseSend, s.Close
 		} else {
-			c := drpcconn.NewWithOptions(pair.A, drpcconn.Options{Manager: drpcmanager.Options{SoftCancel: r.Intn(2) == 0}})
+			c := drpcconn.NewWithOptions(pair.A, drpcconn.Options{Manager: newOpts})
 			if shape == 0 {
 				in := payload.Make(7, 0, 0, 0, sizes[1])
 				var out []byte
@@ -444,13 +474,23 @@ func interop(id string, seed uint64, oldClient bool) runner.Result {
 			mu.Unlock()
 		}
 	})
-	desc := fmt.Sprintf("old-client=%v shape=%d msgs=%d sizes=%v", oldClient, shape, nmsg, sizes[:4])
+	desc := fmt.Sprintf("old-client=%v shape=%d msgs=%d sizes=%v new-endpoint: soft=%v wbuf=%d split=%d stream-maxbuf=%d", oldClient, shape, nmsg, sizes[:4], newOpts.SoftCancel, newOpts.WriterBufferSize, newOpts.Stream.SplitSize, newOpts.Stream.MaximumBufferSize)
+	if fail != nil {
+		desc += fmt.Sprintf(" handler-fails code=%d text=%q", fail.code, fail.text)
+	}
 	st := rig.WaitAny(client.Done())
 	if st == "watchdog" {
 		return runner.Inconcl(id, "watchdog: "+desc)
 	}
 	if st != "ready" {
 		fails = append(fails, "the call between the two generations never completed")
+	} else if fail != nil {
+		// the old library's Code works through the same interface method, so one reader serves both
+		if client.Err == nil {
+			fails = append(fails, "the handler's error did not reach the client")
+		} else if client.Err.Error() != fail.text || drpcerr.Code(client.Err) != fail.code {
+			fails = append(fails, fmt.Sprintf("the client got code %d text %q, the handler returned code %d text %q", drpcerr.Code(client.Err), client.Err.Error(), fail.code, fail.text))
+		}
 	} else if client.Err != nil {
 		fails = append(fails, "client error: "+rig.ErrStr(client.Err))
 	}
@@ -472,6 +512,9 @@ func interop(id string, seed uint64, oldClient bool) runner.Result {
 		}
 	}
 	wantSrv, wantCli := 1, 1
+	if fail != nil {
+		wantCli = 0
+	}
 	switch shape {
 	case 1:
 		wantSrv = nmsg
